@@ -55,9 +55,18 @@ CHECKS = {
                 text="Every memory algorithm x length x iterator kind x value category x EVERY throw index, under -std=c++11/14/17/20 (separate builds so both the emulations and the std:: branches run), compared with a reference written from the standard's wording and with std:: itself; ledger shows all created objects destroyed and relocate sources alive after a throw.",
                 note="lengths 0..3 (quick) / 0..5 (thorough); g++ (and clang++ in thorough); forked per group so UB crashes are attributed to a case",
                 tech="exhaustive enumeration of cases x fault indices on the real implementation"),
+    "C16": dict(engine="E5", cat="exploration", ref="4/C16",
+                text="A C++11 replayer (public API only) enumerates every operation sequence up to depth 3 (quick) / 4 (thorough) over a 28-36 operation alphabet for six vector, three FlatSet and (C++17) two SmallSet instantiations; it is built in 6 (quick) / 36 (thorough) configurations of {c++11,14,17,20} x {extras, pedantic} x {NDEBUG, assertions} x {-O0,-O2} and all builds offering the same feature set must print byte-identical transcript digests; build probes check that features a configuration does not offer fail to compile there.",
+                note="differential oracle (no expected values): identical transcripts across configurations; element-operation counts excluded; g++ 12 (+clang++ in thorough)", tech="exhaustive bounded enumeration of operation sequences, cross-configuration transcript comparison"),
     "C17": dict(engine="E7", cat="exploration", ref="4/C17",
                 text="Complete enumeration of a bounded configuration matrix (element shapes x categories x N x size_type x standard): every cell is decided by the compiler in a generated TU and compared with an oracle computed independently in Python from the property text.",
                 note="compile-time facts only; g++ (clang++ in thorough); matrix bounds in the evidence file", tech="exhaustive enumeration of the configuration matrix (compiler-decided cells vs independent oracle)"),
+    "C18": dict(engine="E4", cat="exploration", ref="4/C18",
+                text="Complete grid: from every start state (empty, inline with j elements, after reserve(r) for every r<=64, after shrink_to_fit) append one by one up to n=4096 (quick) / 100000 (thorough) and check AT EVERY n: reallocations <= 2*ceil(log2 n)+4, relocated elements <= 6n+16, every growth step >= ceil(1.5*cap) unless clamped by size_type; reserve(n): one allocator call, capacity >= n; shrink_to_fit: capacity == size or N inline. Allocator calls counted by ledger allocators (with and without reallocate), 8/16/64-bit and signed size types.",
+                note="bounds exactly as stated in the property; the grid is complete within n <= NMAX", tech="exhaustive enumeration of (start state, n) with running-bound check on the real implementation"),
+    "C19": dict(engine="E4", cat="exploration", ref="4/C19",
+                text="Counting comparator; every n in 0..128 (thorough: to 4096), every key rank present and absent, every lookup (find/contains/count/lower_bound/upper_bound/equal_range) and the position search of insert/emplace/erase: calls <= 2*ceil(log2(n+1))+4; every CORRECT hint for every key: <= 8 calls and the maximum for n in [8,16) equals the maximum for n>=100 (independence of n measured, not assumed); inline SmallSet<N> lookups <= 2N+2 for N in {1,2,3,5,8,16}, every fill level and key.",
+                note="three underlying vectors x two comparators", tech="exhaustive enumeration of (n, key rank, operation) with comparator-call counting on the real implementation"),
     "C20": dict(engine="E6", cat="model_checking", ref="4/C20",
                 text="Real threads under a serialising scheduler (raw futex hand-off): all interleavings at operation granularity and every single preemption at function-entry granularity for 2-3 reader threads on shared const containers; oracles: results equal the sequential ones, ThreadSanitizer silent (controlled and free-running passes; self-test proves the scheduler does not blind it), shared objects live in an mprotect'ed arena so any write by a const member faults, nm shows no writable statics under amc::.",
                 note="preemption bound 1 at function-entry granularity, unbounded at operation granularity; TSan models C++ happens-before, not hardware reordering; g++12/libstdc++",
@@ -65,9 +74,6 @@ CHECKS = {
 }
 
 NOT_YET = {
-    "C16": "check under construction",
-    "C18": "check under construction",
-    "C19": "check under construction",
 }
 
 ENGINES = [
@@ -76,6 +82,8 @@ ENGINES = [
     dict(name="E2", path="src/explore_set.cpp", serves_properties=["C02", "C03", "C04", "C05", "C11", "C14"], kind_free_text="explicit-state BFS over real FlatSet/SmallSet instantiations against std::set"),
     dict(name="E3", path="src/explore_vec.cpp --fault / src/explore_set.cpp --fault", serves_properties=["C09"], kind_free_text="fault-index enumeration over every explored (state, operation) of E1/E2"),
     dict(name="E-mem", path="src/c15/c15.cpp", serves_properties=["C15"], kind_free_text="exhaustive case x fault-index enumeration of the memory algorithms per language standard"),
+    dict(name="E4", path="src/grid_c08.cpp src/grid_c18.cpp src/grid_c19.cpp", serves_properties=["C08", "C18", "C19"], kind_free_text="complete grid enumerators (boundary sizes, growth, comparator-call counts)"),
+    dict(name="E5", path="src/c16/replayer.cpp", serves_properties=["C16"], kind_free_text="C++11 replayer enumerating all bounded operation sequences, compared across build configurations"),
     dict(name="E6", path="src/c20/harness.cpp", serves_properties=["C20"], kind_free_text="preemption-bounded schedule explorer over real threads (serialising scheduler)"),
     dict(name="E7", path="checks/c17.py", serves_properties=["C17"], kind_free_text="generated static matrix, compiler-decided cells vs Python oracle"),
 ]
